@@ -162,7 +162,7 @@ struct JobResult {
 }
 
 fn wall_cap(tier: Tier) -> Duration {
-    let def = match tier { Tier::Quick => 45, Tier::Thorough => 1500 };
+    let def = match tier { Tier::Quick => 45, Tier::Thorough => 600 };
     Duration::from_secs(std::env::var("VH_WALL_CAP_S").ok().and_then(|s| s.parse().ok()).unwrap_or(def))
 }
 
@@ -431,7 +431,7 @@ fn worker_driver(w: usize, exe: &std::path::Path, prop: &str, tier: Tier, ids: &
             let status = child.wait().map(|s| format!("{s}")).unwrap_or_default();
             let last = std::fs::read_to_string(&marker).unwrap_or_default();
             let mut r = JobResult::default();
-            r.crashed = Some(if last.starts_with("HUNG ") { format!("an execution did not end (30 s of CPU, or 300 s, without reaching its end; verdict and teardown of the subject included): {}", last.trim_end()) } else { format!("worker process died ({status}) while executing {last}") });
+            r.crashed = Some(if last.starts_with("HUNG ") { format!("an execution did not end (30 s of CPU, or 900 s, without reaching its end; verdict and teardown of the subject included): {}", last.trim_end()) } else { format!("worker process died ({status}) while executing {last}") });
             results.lock().unwrap().push((job, r));
             child = spawn();
             stdin = child.stdin.take().unwrap();
@@ -446,12 +446,12 @@ fn worker_driver(w: usize, exe: &std::path::Path, prop: &str, tier: Tier, ids: &
 // ------------------------------------------------------------------------------------------------ E1 worker
 
 /// Hang watchdog of a worker process. `HEARTBEAT` moves at the start of every execution; while `ARMED`, an execution (including the
-/// verdict and the teardown of the subject) that burns 30 s of CPU, or lasts 300 s, without the next one starting cannot be a legal
+/// verdict and the teardown of the subject) that burns 30 s of CPU, or lasts 900 s, without the next one starting cannot be a legal
 /// one (executions are capped at 20 000 steps of microseconds each): the marker is prefixed with HUNG and the process aborts, which
 /// the master attributes to that execution.
 static HEARTBEAT: std::sync::atomic::AtomicU64 = std::sync::atomic::AtomicU64::new(0);
 static ARMED: std::sync::atomic::AtomicBool = std::sync::atomic::AtomicBool::new(false);
-fn cpu_seconds() -> f64 {
+pub(crate) fn cpu_seconds() -> f64 {
     let mut ts = libc::timespec { tv_sec: 0, tv_nsec: 0 };
     unsafe { libc::clock_gettime(libc::CLOCK_PROCESS_CPUTIME_ID, &mut ts) };
     ts.tv_sec as f64 + ts.tv_nsec as f64 * 1e-9
@@ -459,7 +459,7 @@ fn cpu_seconds() -> f64 {
 fn spawn_watchdog(marker_path: Option<String>) {
     use std::sync::atomic::Ordering::SeqCst;
     let cpu_limit: f64 = std::env::var("VH_HANG_CPU_S").ok().and_then(|s| s.parse().ok()).unwrap_or(30.0);
-    let wall_limit: f64 = std::env::var("VH_HANG_WALL_S").ok().and_then(|s| s.parse().ok()).unwrap_or(300.0);
+    let wall_limit: f64 = std::env::var("VH_HANG_WALL_S").ok().and_then(|s| s.parse().ok()).unwrap_or(900.0);
     std::thread::spawn(move || {
         let (mut last, mut cpu0, mut t0) = (HEARTBEAT.load(SeqCst), cpu_seconds(), Instant::now());
         loop {
